@@ -64,6 +64,9 @@ def cases(tier, seed):
                                                                               tao=k if st == 'off' else 0, heat=False, start_costs=True, pgrid=pg)))
     # ramp profiles without ramp_freq are per main time unit: omitting the argument = giving the main time unit explicitly (C19's form machinery)
     out.append(('default_ramp_freq_is_main_time_unit', dict(kind='forms', which='defaults_plant_ramp_freq')))
+    # heat bounds of the start ramp given without heat bounds of the shutdown ramp (and the other way round) are in force
+    out.append(('heat_start_profile_without_heat_shutdown_profile', dict(kind='forms', which='chp_heat_start_profile_only')))
+    out.append(('heat_shutdown_profile_without_heat_start_profile', dict(kind='forms', which='chp_heat_shutdown_profile_only')))
     phys = PHYS_THOROUGH if tier == 'thorough' else PHYS_QUICK
     for cid, kw in phys:
         out.append((cid, dict(kind='physics', **kw)))
